@@ -65,6 +65,16 @@ CHECKS = {
    technique="explicit-state breadth-first search over assembler call sequences (≤10/14 calls, nesting ≤2/3) with the contract's state machine as reference model; every transition replayed on a fresh real builder; repeated-key and wrong-kind rejections injected at every position through all three key routes",
    text="All legal call sequences within the bound are explored; each call must succeed, each injected repeated key must return ErrRepeatedMapKey from the call that supplied it and leave the assembler usable (all continuations explored, sticky rejection flag in the state), wrong kinds must error, and Build must equal the model value.",
    note="Reference model = contract state machine in mc/props/c12. Engines: basicnode Any/Map/List (typed engines: see typed check). Misuse orders are not generated."),
+ "C17": dict(
+   category="model_checking", design_ref="DESIGN.md §5 C17", engine="bfs",
+   technique="explicit-state search over put/get histories on the real stores (state = keys stored [+ last operation], to fixpoint) for pairs of adversarial keys against a Go map, with every filesystem path of fsstore logged through an import-rewritten os shim and checked for containment",
+   text="Every pair of adversarial keys is forced through each store; after every step of every explored history both keys and a never-put key are audited against the map model (Has/Get/GetStream/Peek, through methods and storage.* fallbacks), caller and returned buffers are mutated, and for fsstore every path of every filesystem call must lie under the base directory with sibling files untouched.",
+   note="fsstore is built from the working tree with its os/crypto-rand imports rewritten to shims by `go build -overlay`; /repo is not modified. One content per key; Has may answer with an error for a name the filesystem cannot hold. cidlink.Memory is exercised through link systems in C05."),
+ "C18": dict(
+   category="fault_enumeration", design_ref="DESIGN.md §5 C18", engine="fault",
+   technique="exhaustive crash-point and single/double fault enumeration over every filesystem call of 10–14 write histories on the real fsstore (process death before/after each call, torn writes, six errno answers), recovery by a new process, plus stateless exploration of all interleavings of 2–3 threads at filesystem-call granularity up to a preemption bound under a cooperative scheduler",
+   text="For every history and every point the writer is killed or a call fails; a fresh store on the same directory must then find every key absent or complete, acknowledged writes present, no partial file outside the staging directory, and must accept new puts. Concurrent writer/writer, writer/reader and writer/Has harnesses are explored over every schedule within the preemption bound, with a raw-os observer evaluating the invariant after every step.",
+   note="Power loss (unsynced page cache) is not modelled. Scheduling points are the filesystem calls (the code has no other synchronisation); a free-running -race pass over the same bodies belongs to C20. EEXIST from rename is injected only when the destination exists."),
 }
 
 NOT_YET = "check not built yet in this round (planned in DESIGN.md §5; will be claimed when its explorer exists)"
@@ -92,7 +102,7 @@ def main():
         "setup_cmd": "./setup.sh",
         "hooks": {
             "guard": "verif",
-            "enable": "no source hooks: instrumentation is applied at check time with `go build -overlay` (import rewriting of the working tree's own sources, see DESIGN.md §1); nothing in /repo is guarded by the tag",
+            "enable": "no source hooks: instrumentation is applied at check time with `go build -overlay` (mc/cmd/rewrite rewrites the imports of the working tree's own fsstore sources to the shims in mc/shims); nothing in /repo is guarded by the tag",
             "baseline_off_cmd": "/verif/baseline_off.sh",
             "source_commits": [],
             "add_only": True,
@@ -100,6 +110,8 @@ def main():
         "engines": [
             {"name": "enum", "path": "mc/core", "serves_properties": sorted(k for k,v in CHECKS.items() if v.get("engine","enum")=="enum"), "kind_free_text": "odometer / trie enumeration of bounded input and program spaces executed on the real code, sharded over 16 cores"},
             {"name": "bfs", "path": "mc/props/c12", "serves_properties": sorted(k for k,v in CHECKS.items() if v.get("engine")=="bfs"), "kind_free_text": "explicit-state search whose transitions call the real code; successor = replay of the shortest path on a fresh real object + 1 call; canonical key from the reference model"},
+            {"name": "sched", "path": "mc/core/sched.go", "serves_properties": ["C18"], "kind_free_text": "cooperative scheduler (one runnable goroutine at a time, hand-off at shim points) with depth-first enumeration of choice prefixes under iterative preemption bounding; schedules are replayable choice lists"},
+            {"name": "vos/vrand overlay shims", "path": "mc/shims", "serves_properties": ["C17", "C18"], "kind_free_text": "os and crypto/rand surfaces forwarded to the real ones after consulting a per-execution controller (log, yield, inject, crash); compiled into fsstore by go build -overlay from the working tree's own sources"},
             {"name": "fault", "path": "mc/lsx", "serves_properties": sorted(k for k,v in CHECKS.items() if v.get("engine")=="fault"), "kind_free_text": "environment-answer enumerator: scripted storage reader/writer faults at every interaction of a recorded run"},
         ],
         "checks": checks,
